@@ -126,6 +126,11 @@ def iter_items(I, it):
     it = I.deref(it) if isinstance(it, Ref) else it
     if it.kind == 'PyIter':
         return it.fields[0].fields[it.fields[1].v:]
+    if it.kind == 'Range':
+        a, b = it.fields
+        if not (a.conc() and b.conc()):
+            raise Unsupported('iteration over a symbolic range')
+        return [IntV(a.w, k, a.s) for k in range(a.v, max(a.v, b.v))]
     if it.kind == 'SliceIter':
         sl, pos = it.fields
         lst, start, ln = I.elems_of(sl)
@@ -370,6 +375,9 @@ def default_like(v):
 
 def default_for(I, ty):
     ty = ty.strip()
+    m = re.match(r'^\[(\w+); (\d+)\]$', ty)
+    if m:
+        return Agg('array', [default_for(I, m.group(1)) for _ in range(int(m.group(2)))])
     last = re.sub(r'<.*$', '', ty).split('::')[-1]
     if last in ('Vec', 'VecDeque', 'HashMap', 'HashSet'):
         return Agg(last, [])
